@@ -93,6 +93,8 @@ func c17Values(c *mon.Ctx, r *mon.Rand) {
 		{root.Tagged(map[string]string{"k": "v1"}), prefix, mon.RefOverlay(rootTags, map[string]string{"k": "v1"})},
 		{root.Tagged(map[string]string{"k": "v2"}), prefix, mon.RefOverlay(rootTags, map[string]string{"k": "v2"})},
 		{root.SubScope("sub"), mon.RefName(prefix, "_", "sub"), rootTags},
+		// a child that overrides a tag it inherits (under a subscope of its own, so that the family's label keys stay the same)
+		{root.SubScope("ovr").Tagged(map[string]string{"env": "overridden"}), mon.RefName(prefix, "_", "ovr"), mon.RefOverlay(rootTags, map[string]string{"env": "overridden"})},
 		// a tag with an empty value is a label value like any other: a series of its own next to k=v1 and k=v2
 		{root.Tagged(map[string]string{"k": ""}), prefix, mon.RefOverlay(rootTags, map[string]string{"k": ""})},
 		{root.SubScope("sub").Tagged(map[string]string{"zone": "z"}).SubScope("deep"), mon.RefName(prefix, "_", "sub", "deep"), mon.RefOverlay(rootTags, map[string]string{"zone": "z"})},
@@ -153,7 +155,9 @@ func c17Values(c *mon.Ctx, r *mon.Rand) {
 	}
 	specs := map[string][]float64{}
 	dspecs := map[string][]time.Duration{}
+	usedD := map[string]bool{}
 	nops := r.Range(5, 50)
+	twinSpecs := nops%3 == 0
 	scribble := nops%2 == 0
 	panicked := c.Guard("panic-prometheus", desc, func() {
 		for i := 0; i < nops; i++ {
@@ -241,6 +245,19 @@ func c17Values(c *mon.Ctx, r *mon.Rand) {
 						}
 					}
 				}
+				if twinSpecs && fam == "hdb" && !usedD["hdb"] && len(dspecs["hda"]) >= 2 {
+					// hdb gets a bound set with the element sum of hda's (one bound moved
+					// up, another down by the same amount): the two collide in tally's
+					// bucket cache and must keep their own bounds
+					a := dspecs["hda"]
+					if gap := a[1] - a[0]; gap >= 3 {
+						u := gap / 3
+						tw := append([]time.Duration(nil), a...)
+						tw[0], tw[1] = a[0]+u, a[1]-u
+						dspecs["hdb"] = tw
+					}
+				}
+				usedD[fam] = true
 				sp := dspecs[fam]
 				xs := r.SamplesForDurations(sp, 1)
 				x := xs[r.Intn(len(xs))]
